@@ -5,11 +5,11 @@ import re
 
 ID = "C16"
 AREA = "hdr"
-COQ_TARGETS = ["theories/Props/C16.vo", "theories/Props/C16c.vo", "theories/Props/C16e.vo"]
+COQ_TARGETS = ["theories/Props/C16.vo", "theories/Props/C16c.vo", "theories/Props/C16e.vo", "theories/Props/C16f.vo"]
 REQUIRES = ["From Coq Require Import List NArith Bool.", "From Coq.Strings Require Import Byte.",
-            "From MS Require Import Base.Bytes Base.Outcome Mp4.Header Mp4.HeaderSpec Mp4.Box Mp4.BoxLazy Mp4.BoxOps Mp4.BoxEdit Props.C16 Props.C16c Props.C16e.",
+            "From MS Require Import Base.Bytes Base.Outcome Mp4.Header Mp4.HeaderSpec Mp4.Box Mp4.BoxLazy Mp4.BoxOps Mp4.BoxEdit Mp4.BoxFail Mp4.BoxFailProofs Props.C16 Props.C16c Props.C16e Props.C16f.",
             "Import ListNotations.", "Open Scope N_scope."]
-COQCHK = ["MS.Props.C16", "MS.Props.C16c", "MS.Props.C16e"]
+COQCHK = ["MS.Props.C16", "MS.Props.C16c", "MS.Props.C16e", "MS.Props.C16f"]
 
 THEOREMS = [
     ("C16_header_roundtrip", """
@@ -73,6 +73,22 @@ THEOREMS = [
   forall (p : bytes) (kids : list node) (ops : list (nat * nat)) (i m : nat) (kids' : list node) (b : bytes),
   parse_moov p = Ok kids -> edit_trak i m (fst (run_ops ops 0 kids)) = Ok kids' ->
   puts_calc kids' = Ok b -> lens_calc kids' = Ok (N.of_nat (length b))"""),
+    ("C16_failing_model_agrees", """forall (ops : list (nat * nat)) (step : nat) (kids : list node),
+  snd (run_ops_st ops step kids) = fail_unit (snd (run_ops ops step kids)) /\\
+  (snd (run_ops ops step kids) = None -> fst (run_ops_st ops step kids) = fst (run_ops ops step kids))"""),
+    ("C16_D9_container_shape", """forall n : node, let '(n', o) := force_cont_st n in
+  match o with
+  | Ok _ => force_cont n = Ok n'
+  | _ => exists h d pre, n = Raw h d /\\ d = pre ++ boxes_resid (boxes_fuel d) d /\\ n' = Raw h (boxes_resid (boxes_fuel d) d)
+  end"""),
+    ("C16_D9_table_shape", """forall (w : N) (n : node), let '(n', o) := force_table_st w n in
+  match o with
+  | Ok _ => force_table w n = Ok n'
+  | _ => exists h d pre, n = Raw h d /\\ d = pre ++ table_resid w d /\\ n' = Raw h (table_resid w d)
+  end"""),
+    ("C16_len_agrees_in_every_history", """forall (p : bytes) (kids : list node) (ops : list (nat * nat)) (b : bytes),
+  parse_moov p = Ok kids ->
+  puts_calc (fst (run_ops_st ops 0 kids)) = Ok b -> lens_calc (fst (run_ops_st ops 0 kids)) = Ok (N.of_nat (length b))"""),
 ]
 
 TRUSTED = [
@@ -116,12 +132,16 @@ NOTES = ["part (c) (lazy box tree): theorems C16_lazy_roundtrip / C16_encoded_le
          "trees) and compares put_buf / encoded_len with the extracted model; the oracle compares put_buf with the input bytes directly",
          "finding D9 (a FAILED lazy parse has already consumed part of the child's BytesMut and changed the payload length, so a later put_buf writes "
          "a shortened box with recomputed sizes; witness `lazy 000000347472616b0000002c6d646961000000246d696e660000001c7374626c000000147374636f"
-         "000000000000000200000001 0.4`: co_mut fails with TruncatedBox, 44 bytes are then written for the 52 parsed) is outside the model: "
-         "force_cont / force_table return an error and no new state, and every caller in the sanitizer propagates the error at once, so the "
-         "sanitizer never serialises such a value. As worded (`regardless of which children were lazily parsed in between`) the property is "
-         "violated by these histories; the stream of failing accessor calls (`lazy-failing-calls`) is generated only when the finding is "
-         "recorded as `known: property=C16 id=D9 ...` in known_findings.txt (or with VERIF_C16_D9=1), and is then reported as KNOWN-FINDING; "
-         "for those cases model and implementation are compared on error kind and failing step only, and encoded_len = |put_buf| is still checked"]
+         "000000000000000200000001 0.4`: co_mut fails with TruncatedBox, 44 bytes are then written for the 52 parsed): every caller in the "
+         "sanitizer propagates the error at once, so the sanitizer never serialises such a value. As worded (`regardless of which children were "
+         "lazily parsed in between`) the property is violated by these histories; the streams of failing accessor calls (`lazy-failing-calls`, "
+         "`lazy-failing-grid`) are generated only when the finding is recorded as `known: property=C16 id=D9 ...` in known_findings.txt (or with "
+         "VERIF_C16_D9=1), and are then reported as KNOWN-FINDING. The finding is INSIDE the model since Mp4/BoxFail.v: the state-passing "
+         "accessor chains return the tree a failed call leaves behind (what the failing parser had consumed of the child's BytesMut: "
+         "boxes_resid / table_resid), the bytes written after the failed call and encoded_len are compared with the extracted model exactly "
+         "(every failure path of Boxes::parse and of the stco/co64 parsers, at every depth of the chain: `lazy-failing-grid`), "
+         "C16_failing_model_agrees ties that model to the one of the success theorems, C16_D9_container_shape / C16_D9_table_shape give the "
+         "exact shape (same header, a suffix of the payload), and C16_len_agrees_in_every_history proves the length clause in those histories too"]
 
 U32 = 2**32 - 1
 U64 = 2**64 - 1
@@ -327,6 +347,77 @@ def gen_lazy(run):
                 yield "lazy %s %s" % (m.hex() or "-", _rand_ops(rng, ntr)), "lazy-failing-calls"
         tr = G.box(b"trak", G.box(b"mdia", G.box(b"minf", G.box(b"stbl", G.box(b"stco", b"\0\0\0\0\0\0\0\2\0\0\0\1")))))
         yield "lazy %s 0.4" % tr.hex(), "lazy-failing-calls"
+        yield from _failing_grid()
+
+
+def _failing_grid():
+    """every way a lazy parse can fail, at every depth of the accessor chain, with complete siblings before the failing child
+    (they are consumed and dropped with the Vec) and after a first, healthy trak whose calls succeed: what the failing parser has
+    consumed of the child's BytesMut is compared with Mp4/BoxFail.v byte for byte (put= / elen= after the failed call)"""
+    import mp4gen as G
+    be32 = lambda n: n.to_bytes(4, "big")
+    be64 = lambda n: n.to_bytes(8, "big")
+    udta = G.box(b"udta", b"hi")
+    uu = G.box(b"uuid", b"p", uuid=bytes(range(16)))
+    # ways the children of a container can be malformed (appended after `pre` healthy siblings)
+    bad_children = [
+        ("hdr1", b"\0"), ("hdr3", b"\0\0\0"), ("hdr4", b"\0\0\0\x10"), ("hdr7", b"\0\0\0\x10fre"),
+        ("ext-trunc", be32(1) + b"free" + b"\0\0\0"), ("ext-trunc15", be32(1) + b"free" + b"\0" * 7),
+        ("uuid-trunc", be32(30) + b"uuid" + bytes(9)), ("uuid-ext-trunc", be32(1) + b"uuid" + be64(40) + bytes(15)),
+        ("size-below-header", be32(7) + b"free" + b"abcdef"), ("size-2", be32(2) + b"free"),
+        ("ext-size-below-header", be32(1) + b"free" + be64(15) + b"xyz"), ("uuid-size-below-header", be32(23) + b"uuid" + bytes(16) + b"q"),
+        ("payload-too-long", be32(100) + b"free" + b"abc"), ("payload-one-short", be32(12) + b"free" + b"abc"),
+        ("ext-payload-too-long", be32(1) + b"free" + be64(2**40) + b"abcd"),
+    ]
+    # ways a table payload can be malformed
+    def tables(typ, w):
+        ent = (be32 if w == 4 else be64)
+        return [
+            ("empty", b""), ("len1", b"\0"), ("len1-v1", b"\1"), ("len3", b"\0\0\0"), ("version1", b"\1\0\0\0" + be32(0)),
+            ("flags", b"\0\0\0\1" + be32(1) + ent(5)), ("flags-hi", b"\0\x80\0\0" + be32(0)), ("no-count", b"\0\0\0\0"),
+            ("count-3-bytes", b"\0\0\0\0\0\0\1"), ("overflow", b"\0\0\0\0" + be32(2**32 // w) + b"abcdefgh"),
+            ("overflow-max", b"\0\0\0\0" + be32(2**32 - 1) + b"ab"), ("short-array", b"\0\0\0\0" + be32(3) + ent(1) + ent(2)),
+            ("short-by-one", b"\0\0\0\0" + be32(1) + ent(1)[:-1]), ("extra-1", b"\0\0\0\0" + be32(1) + ent(9) + b"\xee"),
+            ("extra-many", b"\0\0\0\0" + be32(0) + b"trailing-bytes"), ("extra-entry", b"\0\0\0\0" + be32(2) + ent(1) + ent(2) + ent(3)),
+        ]
+    good = G.trak(G.stco([4, 5]), extra_trak=(udta,))
+    forms = [("32", "32", "32", "32"), ("64", "32", "64", "32"), ("32", "eof", "32", "32")]
+
+    def wrap(depth, payload_of_failing, form):
+        """a trak in which the container at `depth` (0 trak, 1 mdia, 2 minf, 3 stbl) has the given (malformed) payload"""
+        names = [b"trak", b"mdia", b"minf", b"stbl"]
+        inner = G.box(names[depth], payload_of_failing, form=form[depth] if form[depth] != "eof" or depth == 3 else "32")
+        for d in range(depth - 1, -1, -1):
+            inner = G.box(names[d], (udta if d % 2 else b"") + inner, form="32")
+        return inner
+    for depth in range(4):
+        for name, bad in bad_children:
+            for pre in (b"", udta, udta + uu):
+                for form in forms[:2]:
+                    tr = wrap(depth, pre + bad, form)
+                    for before in (b"", good):
+                        ti = 1 if before else 0
+                        ops = ("0.4,%d.%d" % (ti, 4)) if before else "0.4"
+                        yield "lazy %s %s" % ((before + tr + udta).hex(), ops), "lazy-failing-grid"
+                    if depth:                                                # one accessor short of the failure: succeeds
+                        yield "lazy %s 0.%d,1.4" % ((tr + good).hex(), depth - 1), "lazy-failing-grid"
+    for typ, w in ((b"stco", 4), (b"co64", 8)):
+        for name, pl in tables(typ, w):
+            for tform in ("32", "64", "eof"):
+                stbl_kids = udta + G.box(typ, pl, form=tform) + (uu if tform != "eof" else b"")
+                tr = wrap(3, stbl_kids, forms[0])
+                yield "lazy %s 0.4" % tr.hex(), "lazy-failing-grid"
+                yield "lazy %s 0.4,1.4" % (good + tr).hex(), "lazy-failing-grid"
+                yield "lazy %s 0.3,0.4,0.4" % tr.hex(), "lazy-failing-grid"
+    # layout failures: nothing is consumed
+    two_mdia = G.box(b"trak", G.box(b"mdia", b"") + G.box(b"mdia", b""))
+    both = wrap(3, G.stco([1]) + G.co64([2]), forms[0])
+    none = wrap(3, udta, forms[0])
+    two_stco = wrap(3, G.stco([1]) + G.stco([2]), forms[0])
+    for tr in (two_mdia, both, none, two_stco, G.box(b"trak", udta)):
+        for k in range(5):
+            yield "lazy %s 0.%d" % (tr.hex(), k), "lazy-failing-grid"
+            yield "lazy %s 0.4,1.%d" % ((good + tr).hex(), k), "lazy-failing-grid"
 
 
 def gen_lazyedit(run):
@@ -383,9 +474,8 @@ def _strip_state(out):
 
 
 def same(line, impl, model):
-    if line.startswith("lazy ") and not impl.startswith("ok "):
-        # after a FAILED accessor call the model has no state (the error is all it returns): compare kind and step only
-        return _strip_state(impl) == _strip_state(model)
+    # after a FAILED accessor call too: Mp4/BoxFail.v models the state the failed call leaves behind (what the failing parser had
+    # consumed of the child's BytesMut), so the bytes written afterwards and encoded_len are compared exactly
     return impl == model
 
 
